@@ -2162,3 +2162,199 @@ def check_C18(work, tier, seed):
 
 
 CHECKS.update({"C18": check_C18})
+
+
+# ------------------------------------------------------------------ C08 constant time (footprints)
+
+import threading
+_LACKEY_LOCK = threading.Lock()
+
+
+class SecretSc(Sc):
+    """Scenario whose structure (ops, lengths, placements) comes from the public
+    seed and whose byte strings come from a separate secret source."""
+    def __init__(self, seed, secret_mode):
+        Sc.__init__(self, seed, placements=False)
+        self.srng = random.Random("%s/%s" % (seed, secret_mode))
+        self.mode = secret_mode
+
+    def rb(self, n):
+        if self.mode == "zeros":
+            return bytes(n)
+        if self.mode == "ones":
+            return b"\xff" * n
+        return bytes(self.srng.randrange(256) for _ in range(n))
+
+    def rb_nz(self, n):
+        return self.rb(n)
+
+
+def gen_c08(seed, tier, secret_mode):
+    sc = SecretSc(seed, secret_mode)
+    sc.lines = ["env", "set fast=1"]
+    thorough = tier == "thorough"
+    R = sc.rng          # public choices only
+    for kind in ("s128", "s64"):
+        bs = BS[kind]
+        sc.reset("c08-ks-%s" % kind)
+        for ln in (bs, bs + 1, 2 * bs - 1, 2 * bs, 2 * bs + 5, 3 * bs):
+            sc.ks_set_key(kind, 0, sc.rb(ln))
+            sc.ks_crypt(True, kind, 0, sc.rb(bs))
+            sc.ks_crypt(False, kind, 0, sc.rb(bs))
+        for ln in (bs, bs + 3, 2 * bs):
+            sc.ks_set_tweaked_key(kind, 0, sc.rb(ln))
+            for tl in (1, bs // 2, bs):
+                sc.ks_set_tweak(kind, 0, sc.rb(tl))
+                sc.ks_crypt(True, kind, 0, sc.rb(bs), t=1)
+            sc.ks_set_tweak(kind, 0, None, bs)
+            sc.ks_crypt(False, kind, 0, sc.rb(bs), t=1)
+    sc.reset("c08-mantis")
+    for rounds in (5, 8):
+        for mode in (1, 0):
+            sc.mk_set_key(0, sc.rb(16), rounds, mode)
+            sc.mk_set_tweak(0, sc.rb(8))
+            sc.mk_crypt(0, sc.rb(8))
+            sc.mk_crypt(0, sc.rb(8), tweak=sc.rb(8))
+            sc.mk_swap(0)
+            sc.mk_crypt(0, sc.rb(8))
+    for kind in ("s128", "s64", "mantis"):
+        bs = BS[kind]
+        for cap in CAPS[kind]:
+            sc.reset("c08-ctr-%s-cap%d" % (kind, cap))
+            sc.ctr_init(kind, 0, cap=cap)
+            if kind == "mantis":
+                sc.ctr_set_key(kind, 0, sc.rb(16), rounds=7)
+                sc.ctr_set_tweak(kind, 0, sc.rb(8))
+            else:
+                sc.ctr_set_tweaked_key(kind, 0, sc.rb(2 * bs))
+                sc.ctr_set_tweak(kind, 0, sc.rb(bs - 3))
+            # counter values are secret: all-FF (longest carry chain) in one run, zeros / random in others
+            sc.ctr_set_counter(kind, 0, sc.rb(bs))
+            for n in (1, bs - 1, bs + 1, 4 * bs, 8 * bs + 3, 2, 9 * bs):
+                sc.ctr_encrypt(kind, 0, sc.rb(n))
+            sc.ctr_set_key(kind, 0, sc.rb(16 if kind == "mantis" else 3 * bs), rounds=6)     # rekey mid-stream
+            sc.ctr_set_counter(kind, 0, sc.rb(bs // 2))
+            sc.ctr_encrypt(kind, 0, sc.rb(3 * bs + 1), ip=1)
+            sc.ctr_cleanup(kind, 0)
+            sc.reset("c08-par-%s-cap%d" % (kind, cap))
+            sc.par_init(kind, 0, cap=cap)
+            sc.par_set_key(kind, 0, sc.rb(16 if kind == "mantis" else 2 * bs), rounds=6, mode=0)
+            for nb in (1, 4, 8, 9, 17):
+                tw = sc.rb(nb * 8) if kind == "mantis" else None
+                sc.par_crypt(kind, 0, sc.rb(nb * bs), enc=True, tweak=tw)
+                if kind != "mantis":
+                    sc.par_crypt(kind, 0, sc.rb(nb * bs), enc=False)
+            if kind == "mantis":
+                sc.par_swap(0)
+                sc.par_crypt(kind, 0, sc.rb(9 * 8), tweak=sc.rb(9 * 8))
+            sc.par_cleanup(kind, 0)
+    return sc
+
+
+def public_view(line):
+    """the scenario line with every byte string replaced by its length"""
+    import re
+    def rep(m):
+        v = m.group(2)
+        if v in ("null", "-"):
+            return "%s=%s" % (m.group(1), v)
+        return "%s=<%d>" % (m.group(1), len(v) // 2)
+    return re.sub(r"\b(key|tweak|ctr|in)=([0-9a-f]+|null|-)", rep, line)
+
+
+_lackey_seq = [0]
+
+
+def lackey_run(work, b, text, tag):
+    """run the driver under valgrind/lackey, cutting the log on the fly; returns windows.
+    Every run uses the same working directory and path names of the same length:
+    the client's initial stack layout must not differ between secret variants."""
+    import threading
+    with _LACKEY_LOCK:
+        _lackey_seq[0] += 1
+        k = _lackey_seq[0] % 1000
+    fifo = os.path.join(b.root, "fifo%03d" % k)
+    win = os.path.join(b.root, "wins%03d" % k)
+    os.mkfifo(fifo)
+    rc, nm = sh("nm %s | grep drv_mark" % b.drv)
+    beg = [l.split()[0] for l in nm.split("\n") if "drv_mark_begin" in l][0]
+    end = [l.split()[0] for l in nm.split("\n") if "drv_mark_end" in l][0]
+    fw = subprocess.Popen("%s %s %s < %s > %s" % (os.path.join(b.root, "footwin"), beg, end, fifo, win), shell=True)
+    env = {"PATH": "/usr/local/bin:/usr/bin:/bin", "HOME": "/root", "LANG": "C"}
+    p = subprocess.run(["valgrind", "--tool=lackey", "--trace-mem=yes", "--log-file=" + fifo, b.drv],
+                       input=text.encode(), stdout=subprocess.PIPE, stderr=subprocess.PIPE, env=env, cwd=b.root, timeout=1500)
+    fw.wait(timeout=120)
+    wins = [l.split() for l in open(win).read().split("\n") if l]
+    out_lines = [x for x in p.stdout.decode().split("\n") if x]
+    os.unlink(fifo)
+    os.unlink(win)
+    return wins, out_lines, p.returncode
+
+
+def check_C08(work, tier, seed):
+    out = Outcome()
+    modes = ["ones", "zeros", "rand1"] if tier == "quick" else ["ones", "zeros", "rand1", "rand2", "rand3", "rand4"]
+    builds = [("shipped", dict())]
+    if tier == "thorough":
+        builds += [("w32-scalar", dict(defs=["SKINNY_VERIF_64BIT=0", "SKINNY_VERIF_VEC128_MATH=0", "SKINNY_VERIF_VEC256_MATH=0"],
+                                      built128=0, built256=0)),
+                   ("gcc-O0", dict(opt="-O0"))]
+    nwin = 0
+    for bname, kw in builds:
+        b = build(work, name="foot-" + bname, extra_drv=["-no-pie"], **kw)
+        sh(["gcc", "-O2", "-o", os.path.join(b.root, "footwin"), os.path.join(HARNESS, "footwin.c")])
+        texts = {m: gen_c08(seed, tier, m).text() for m in modes}
+        pubs = None
+        for m in modes:
+            pv = [public_view(l) for l in texts[m].split("\n") if l.split(" ")[0].startswith(("ks_", "mk_", "ctr_", "par_"))]
+            if pubs is None:
+                pubs = pv
+            elif pubs != pv:
+                raise Broken("secret variants differ in their public structure")
+        from concurrent.futures import ThreadPoolExecutor
+        with ThreadPoolExecutor(max_workers=len(modes)) as tp:
+            res = list(tp.map(lambda m: lackey_run(work, b, texts[m], bname + "-" + m), modes))
+        events = []
+        for m, (wins, olines, rc) in zip(modes, res):
+            if rc != 0 or any('"e":"crash"' in x for x in olines):
+                raise Broken("driver failed under valgrind (%s, rc=%s)" % (m, rc))
+            if len(wins) != len(pubs):
+                raise Broken("expected %d call windows, lackey log has %d (%s)" % (len(pubs), len(wins), m))
+            for (idx, n, nst, dg), pub in zip(wins, pubs):
+                events.append(json.dumps({"e": "foot", "run": m, "build": bname, "idx": int(idx), "pub": pub,
+                                          "n": int(n), "stores": int(nst), "digest": dg}))
+            nwin += len(wins)
+        out.events += len(events)
+        r = validate_trace(work, events, module="FootTrace")
+        out.traces_tlc += len(modes)
+        if not r.accepted:
+            bad = events[r.consumed] if r.consumed < len(events) else "{}"
+            ev = json.loads(bad)
+            p = save_replay("C08", seed, len(out.violations), events[:r.consumed + 1], "footprint differs")
+            with open(p + ".scn", "w") as f:
+                f.write("# secret variant %s of build %s\n" % (ev.get("run"), bname) + texts.get(ev.get("run"), ""))
+            out.violations.append(("foot:%s" % ev.get("pub", "")[:60], p,
+                                   "footprint of call #%s (%s) depends on secret values: run '%s' differs from run '%s' | %s"
+                                   % (ev.get("idx"), ev.get("pub"), ev.get("run"), modes[0], " ".join(r.messages)[:300])))
+        for e in events[:len(pubs)]:
+            out.distinct.add(json.loads(e)["pub"] + bname)
+        if not out.samples:
+            out.samples = [events[3][:300], events[len(pubs) + 3][:300]]
+    return out, dict(
+        level="exploration",
+        rule="Each public call of a scenario covering key and tweak set-up (every length class), tweak change, "
+             "single-block enc/dec, CTR (request sizes around block and batch edges, rekey mid-stream, short counter), "
+             "parallel with and without remainder, Mantis both modes, on every back end (cap 0/1/2), is executed on "
+             "the shipped binary (gcc -O3, SIMD on; thorough: also the 32-bit scalar build and -O0) under "
+             "valgrind/lackey once per secret assignment: all-0xFF secrets (longest counter carry chains), all-zero "
+             "secrets, seeded random secrets (quick 3, thorough 6 assignments). The complete sequence of instruction "
+             "addresses and load/store addresses between marker functions is digested per call; FootTrace.tla "
+             "(TLC) accepts iff the digest is a function of the call's public view (secret byte strings replaced by "
+             "their lengths). distinct = distinct (public call, build) pairs; evaluations = call windows compared.",
+        extra=dict(windows=nwin),
+        assumptions=["secret sampling: a dependence that none of the assignments triggers is not seen",
+                     "micro-architectural effects below the instruction/address level are out of scope",
+                     "valgrind presents the same CPUID as the host (AVX2 code paths are exercised)"])
+
+
+CHECKS.update({"C08": check_C08})
